@@ -6,7 +6,9 @@ live sizes) over register_cell, del_cell, add_monitor (probe PassthroughReducer 
 duration; pooled and unique), del_monitor, trainer.train()/eval(), layer.train()/eval(),
 layer step, trainer step, update, clear, drop-trainer / drop-last-reference + gc.collect(),
 with one or two trainers of generated type on layers whose cells share a neuron population
-or a connection.  After EVERY operation the implementation is compared with
+or a connection (Biclique 2x1 / 1x2 / 2x2, RecurrentSerial with trainable feedback) and on
+pairs of layers that use the same component names (two Serial layers, two Bicliques) trained
+by one trainer.  After EVERY operation the implementation is compared with
 ``pbt.models.lifecycle.World``: object identity partition of the pool (aliasing), attachment
 of every monitor, the complete reducer contents of every monitor (values), all listings,
 the number of hook handles on the layer, liveness of dropped objects.
@@ -892,6 +894,7 @@ LEGS = [
 ]
 
 ASSUMPTIONS = [
+    "a network step = every layer of the topology stepped once (two-layer topologies); layer train/eval is switched per layer",
     "CPU only; CPython reference counting + explicit gc.collect() for the drop-last-reference rules",
     "LinearDense connections with DeltaCurrent synapses, ExactNeuron populations scripted through override: what a "
     "monitor should see at a step is known from the case, independent of weights",
